@@ -53,6 +53,8 @@ def configs(tier, seed):
                 small.append(([2, 2], pat, k))
     else:
         small += [([2, 2], [0, 1, 1, 0], 2), ([2, 2], [0, 1, 2, 0], 3), ([1, 2], [0, 0], 1), ([0, 2], [], 0)]
+    # skewed counts: two classes that a many-to-one mapping merges outnumber the single most frequent class
+    small += [([7], [0, 0, 1, 1, 2, 2, 2], 3), ([7], [2, 0, 2, 1, 2, 0, 1], 3), ([5, 2], [2, 2, 2, 2, 0, 0, 0, 1, 1, 1], 3)]
     large = []
     p96 = [0] * 96
     for i, pos in enumerate((5, 17, 50, 95)):
@@ -75,7 +77,7 @@ def configs(tier, seed):
     for shape, pat, k in small:
         for o in opts:
             i += 1
-            if tier == "quick" and i % 5:
+            if tier == "quick" and i % 5 and not (o[0] == "omit" and o[2] in ("m2o", "m2o_common") and o[3] == "dtype"):
                 continue
             common, counts, mapping, back = o
             if k == 0 and common == "omit":
@@ -97,7 +99,7 @@ def configs(tier, seed):
     return out
 
 
-def explore(cfg, eng, ctx):
+def explore(cfg, eng, ctx, only=None):
     C = cubes.catii("summary")
     shape, pat, k = tuple(cfg["shape"]), cfg["pattern"], cfg["k"]
     ncells = len(pat)
@@ -213,7 +215,8 @@ def explore(cfg, eng, ctx):
                     w = it(u) if w is None else z3.If(c, it(u), w)
                 want = w
             conds.append(it(flat[p]) == want)
-        eng.assert_(z3.And(*conds) if conds else True, "array -> index -> array differs from the (mapped) input")
+        if only is None:
+            eng.assert_(z3.And(*conds) if conds else True, "array -> index -> array differs from the (mapped) input")
         # the index itself: well-formed, and a library-chosen common value is a most frequent one
         wf = [z3.BoolVal(isinstance(ix.shape, tuple) and tuple(ix.shape) == shape)]
         for key, arr in dict.items(ix):
@@ -225,7 +228,8 @@ def explore(cfg, eng, ctx):
                 wf.append(bt(S.e_lt(0, n)))
                 for j in range(1, arr.o.shape[0]):
                     wf.append(z3.Implies(bt(arr.live(j)), it(arr.o[j - 1]) < it(arr.o[j])))
-        eng.assert_(z3.And(*wf), "index built from an array is not well-formed")
+        if only is None:
+            eng.assert_(z3.And(*wf), "index built from an array is not well-formed")
         if cfg["common"] == "omit" and ncells:
             cnt = {}
             for cl in pat:
